@@ -455,6 +455,43 @@ def wake_prune(res):
         raise AnalysisError(f"{DRV}: no pruning condition on the sleep states of two objects found")
 
 
+def runtime_state(res, us):
+    """R-RUNTIME-STATE: the sleep module decides on the run-time state.  A field `X0` of mjModel for which mjData has a
+    field `X` is the compiled initial value of run-time state X (the reset path copies it: the positive example below);
+    a function of engine_sleep.c that reads m->X0 decides on what the model was compiled with, not on what the user set."""
+    res.rule("R-RUNTIME-STATE", "no function of engine_sleep.c reads a mjModel field X0 whose run-time copy d->X exists in "
+             "mjData (e.g. eq_active0 / eq_active): wake and sleep decisions are taken on the run-time state; the reset path "
+             "of engine_io.c, which performs the copy, is the must-match example", floor=5)
+    from .. import ctypeinfo
+    dset = {f["name"] for f in ctypeinfo.fields("mjData_")}
+    if "eq_active" not in dset or "tree_asleep" not in dset:
+        raise AnalysisError("struct mjData_ of the headers lost eq_active / tree_asleep: field table not usable")
+    uio = engine.unit(IO)
+    example = sorted(f for fn in uio.funcs.values() if (fn.get("file") or uio.tu) == uio.tu
+                     for f in r_misc.field_reads(fn, "mjModel") if f.endswith("0") and f[:-1] in dset)
+    if "eq_active0" not in example:
+        raise AnalysisError("positive example lost: the reset path of engine_io.c no longer reads m->eq_active0 "
+                            "(the detector cannot see initial-value reads any more)")
+    res.extra["initial_value_fields_read_on_reset_path"] = sorted(set(example))
+    for name, fn in sorted(us.funcs.items()):
+        if (fn.get("file") or us.tu) != us.tu or not cir.kids(fn):
+            continue
+        hits = sorted(f for f in r_misc.field_reads(fn, "mjModel") if f.endswith("0") and f[:-1] in dset)
+        construct = f"{name}:initial-value-reads"
+        if not hits:
+            res.ok("R-RUNTIME-STATE", construct, {"file": SLEEP})
+            continue
+        line = fn.get("line")
+        for x in cir.walk(fn):
+            if x.get("k") == "MemberExpr" and x.get("n") == hits[0]:
+                line = x.get("line") or line
+                break
+        res.bad("R-RUNTIME-STATE", construct, SLEEP, line,
+                f"{name} reads m->{hits[0]}, the compiled initial value of the run-time state d->{hits[0][:-1]}: a tree tied to an "
+                f"awake tree through state the user changed at run time (d->{hits[0][:-1]}) is judged by the model's default, so "
+                "it is not woken (or is woken needlessly)")
+
+
 def run(res, tier):
     us = engine.unit(SLEEP)
     uf = engine.unit(FWD)
@@ -481,6 +518,7 @@ def run(res, tier):
         raise AnalysisError("R-RESULT-USED lost instances: fewer result obligations than wake hooks")
     res.rule("R-WHO-WRITES", "d->tree_asleep written only by engine_sleep.c and the reset path", floor=7)
     who_writes(res, g)
+    runtime_state(res, us)
     wake_prune(res)
     res.rule("R-FILTER", "qvel/qpos writes of mj_advance go through the awake index lists under the sleep filter", floor=5)
     # statement-level static helpers of mj_advance are expanded: extracting a block into a helper changes nothing
